@@ -795,7 +795,7 @@ func init() {
 		Gen: func(r *RNG, tier string, run int) *Trace {
 			// a third of the faulting writers also answers (0, nil) now and then:
 			// C06 only presupposes that the writer returns
-			return genDecoderTrace(r, dgen{nOps: 30, sizes: "huge", malformed: 0.1, readBias: 3, resetW: 1, wfaults: r.Chance(0.3), retry: 0.5, nilWrites: run%3 == 0})
+			return genDecoderTrace(r, dgen{nOps: 30, sizes: "huge", malformed: 0.1, readBias: 3, resetW: 1, wfaults: r.Chance(0.3), retry: 0.5, nilWrites: run%3 == 0, deadWriter: run%5 == 2})
 		},
 		Exec:     execDecoder("C06"),
 		NonTriv:  func(res *Result) bool { return pr(res, "arg_gt_bs_minus_ws", "seq_gt_bs_minus_ws") },
